@@ -57,8 +57,18 @@ SPEC = dict(
              "exists (4300-digit limit) and every non-empty hash; equal addresses have equal __hash__; and EVERY single-character "
              "substitution by another character of the same alphabet in ANY friendly text is rejected - by xor-linearity of CRC-16 "
              "(derived from the C18 step lemmas, over the crc16 code translated from crc.py on every run) the question reduces to "
-             "the 48 x 63 error patterns, whose syndromes are all shown non-zero by kernel evaluation.",
-        level_note='Trusted: Lean kernel (propext, Classical.choice, Quot.sound only); the hand-written models Model/Address.lean and '
+             "the 48 x 63 error patterns, whose syndromes are all shown non-zero by kernel evaluation. "
+             "The WHOLE methods Address.to_str (raw form and the 8 friendly variants: tag, signed workchain byte, hash, CRC16, both base64 alphabets), "
+             "is_b64 (base64 decode, tag/flag decoding, signed workchain byte, hash slice, CRC comparison), __eq__ and __hash__ are re-translated from "
+             "address.py on every run (Generated/AddrFull.lean) and proved equal to the hand model for ALL addresses, flags and texts "
+             "(c13_src_fn_methods); c13_src_friendly_roundtrip, c13_src_substitution_rejected and c13_src_eq_hash restate the property for the "
+             "regenerated methods themselves. Address.__init__ (isinstance dispatch) and is_hex stay hand model + correspondence.",
+        level_note='Trusted: Lean kernel (propext, Classical.choice, Quot.sound only); the translator harness/translate/pyobj.py + addrfull.py for '
+                   'to_str / is_b64 / __eq__ / __hash__ (reading: is_b64 returning False and raising are one outcome; lean/TonVerif/PyStr.lean for the '
+                   'signed byte conversions; validated against the running class on ~900 renderings / texts / pairs whenever source or translator '
+                   'change) - these methods of Model/Address.lean are proved equal to the regenerated ones; still hand-written and trusted: '
+                   'Model/Address.lean parse / isHex (Address.__init__, is_hex) and the built-in models used by both sides - '
+                   'the hand-written models Model/Address.lean and '
                    'Model/Base64.lean (str.split, int(str[,16]), bytes.fromhex, str(int), bytes.hex, int.to_bytes/from_bytes, base64/'
                    'binascii are modelled by hand for ASCII text) - tied to the library only by sampled differential correspondence '
                    '(~150k model requests quick, ~6M thorough: every text produced, every parse result, all 3024 substitutions of 40/2000 '
@@ -69,7 +79,7 @@ SPEC = dict(
                    'is proved to write / read exactly these values (c13_src_model_to_str, c13_src_model_b64); trusted there: the translator '
                    'harness/translate/pyarith.py.',
         technique='Lean 4 proof (hand model + translated CRC) + differential correspondence with the library + independent format oracle '
-                  '+ source-regenerated tag arithmetic',
+                  '+ methods regenerated from the source on every run and proved equal to the hand model',
     ),
     translators=[],
     design_ref='DESIGN.md §6 C13',
@@ -88,8 +98,10 @@ SPEC = dict(
 def _translators():
     from ..translate import crc as tr
     from ..translate import arith2
+    from ..translate import addrfull
     return [('crc.py->Generated/Crc.lean', tr.regenerate),
-            ('address.py tag arithmetic of to_str / is_b64->Generated/AddrTags.lean', arith2.regenerator('AddrTags'))]
+            ('address.py tag arithmetic of to_str / is_b64->Generated/AddrTags.lean', arith2.regenerator('AddrTags')),
+            ('address.py Address.to_str / is_b64 / __eq__ / __hash__ (whole methods)->Generated/AddrFull.lean', addrfull.regenerate)]
 
 
 SPEC['translators'] = _translators()
@@ -372,6 +384,23 @@ def src_search(ctx):
     found = arith2.search_points(ctx, ['AddrTags'])
     n0 = len(ctx.failures)
     rng = ctx.rng
+    # the whole regenerated methods vs the hand model on the boundary grid: the differing renderings / texts go to the oracle first
+    from ..translate import addrfull
+    for line in addrfull.diff_lines(ctx)[:60]:
+        p = line.split(' ')
+        unh = lambda x: b'' if x == '-' else bytes.fromhex(x)
+        if p[0] == 'str':
+            check_addr(ctx, int(p[1]), unh(p[2]), 'src-fn')
+        elif p[0] == 'b64':
+            check_text(ctx, unh(p[1]).decode('latin-1'), 'src-fn')
+            if not getattr(ctx, '_c13_src_subst', False):      # the text reader differs: all 48 x 63 substitutions of two friendly texts
+                ctx._c13_src_subst = True
+                check_subst(ctx, 0, rng.randbytes(32), True, True, False)
+                check_subst(ctx, -1, rng.randbytes(32), False, False, True)
+        elif p[0] == 'eqh':
+            check_addr(ctx, int(p[1]), unh(p[2]), 'src-fn')
+    if len(ctx.failures) > n0:
+        return True
     for wc in (0, -1, 127):
         check_addr(ctx, wc, rng.randbytes(32), 'src')
     tags = sorted({pt['tag0'] for k in ('b64TestOnly', 'b64Bounceable') for pt in (found.get(k) or [])})[:16]
